@@ -492,17 +492,16 @@ def run(ck):
         ck.count()
         note(ck, "sim", hist)
     ck.sample(dict(direction="spec->code", history=hists[0]))
-    judge(ck, events, hists, "Trace:simulated-histories")
-    # ---- code -> spec: random histories
-    events, hists = [], {}
-    for tid in range(ck.pick(200, 2500)):
+    # ---- code -> spec: random histories (same trace run: one JVM start less)
+    base = len(hists)
+    for tid in range(base, base + ck.pick(200, 2500)):
         h = rand_history(r_, r_.randint(3, ck.pick(10, 14)))
         hists[tid] = h
         run_history(w, tid, h, events)
         ck.count()
         note(ck, "rnd", h)
-    ck.sample(dict(direction="code->spec", history=hists[0]))
-    judge(ck, events, hists, "Trace:random-histories")
+    ck.sample(dict(direction="code->spec", history=hists[base]))
+    judge(ck, events, hists, "Trace:simulated+random-histories")
     # ---- the collapse itself
     seqs = ck.export("UseStack_Export", cfg_text=f"CONSTANT N = {ck.pick(2, 3)}\nCONSTANT MaxTok = 1\nCONSTANT MCScopes = {scopes(ck.pick(S2, S3))}\n",
                      timeout=ck.pick(1500, 10800))
@@ -511,24 +510,24 @@ def run(ck):
     evs = []
     for c in cases:
         e = collapse_event(w, c)
-        e.update(tid=len(evs), i=0)
         evs.append(e)
         ck.count()
         if sum(1 for x in c["seq"] if x["neg"] or x["pos"]) >= 2:
             ck.nontriv(("c", repr(c)))
     ck.sample(dict(kind="collapse", case=evs[-1]["case"], out=evs[-1]["out"]))
-    judge_flat(ck, evs, "Trace:collapse")
     # ---- lines and whole domains
-    evs = []
     for _ in range(ck.pick(60, 800)):
         cfg = rand_cfg(r_)
         for e in domain_events(w, cfg):
-            e.update(tid=len(evs), i=0)
             evs.append(e)
             ck.count()
             ck.nontriv(("d", repr(e["case"])))
     ck.sample(dict(kind="domain", cfg=evs[-1]["case"]["cfg"], obs=evs[-1]["obs"][:2]))
-    judge_flat(ck, evs, "Trace:lines-and-domains")
+    for lo in range(0, len(evs), 4000):
+        part = evs[lo:lo + 4000]
+        for n, e in enumerate(part):
+            e.update(tid=n, i=0)
+        judge_flat(ck, part, f"Trace:collapse+lines+domains[{lo // 4000}]")
 
 
 def note(ck, tag, hist):
